@@ -56,7 +56,9 @@ def room_predicate(chk, prog, roles):
     syms = {"pos": lambda e: ref_name(e) == pos,
             "len": lambda e: e.get("kind") == "MemberExpr" and e.get("name") == "buffer_len" and ref_name(kids(e)[0]) == inst}
     body = kids(prog.body(f))
-    first_if = next((s for s in body if s.get("kind") == "IfStmt"), None)
+    first_if = next((s for s in body if s.get("kind") == "IfStmt" and
+                     any(m.get("kind") == "MemberExpr" and m.get("name") == "buffer_len" for m in walk(kids(s)[0]))), None) or \
+        next((s for s in body if s.get("kind") == "IfStmt"), None)
     if first_if is None:
         raise AnalysisBroken("room check %s has no test" % roles.room_check)
     c = strip(kids(first_if)[0])
